@@ -41,6 +41,7 @@
 (*   root  : absolute path string of the sandbox directory (the model's /) *)
 (*   fs    : <<entry>>,  entry = [p |-> segs, k |-> "jq", mod |-> Module]    *)
 (*                             | [p |-> segs, k |-> "json", vals |-> <<str>>]*)
+(*                               (+ tvals |-> <<tagged JSON values>>)       *)
 (*                             | [p |-> segs, k |-> "dir"]                   *)
 (*   cwd, home, exe : segs (working directory, $HOME, directory of the      *)
 (*           executable = $ORIGIN)                                          *)
@@ -243,6 +244,10 @@ InitModules(c) ==
 InitOom(c) == \E i \in 1..Len(LoaderPaths(c)) :
                  LET p == LoaderPaths(c)[i] IN p.s # <<>> /\ LastOf(p.s) = ".jq" /\ Stat(c, p) = "oom"
 
+\* LoadJSONWithMeta: the array of all JSON values of the file (the first ones are
+\* strings naming the file; tvals = further values of any JSON type)
+DataValue(e) == A([x \in 1..Len(e.vals) |-> S(e.vals[x])] \o (IF "tvals" \in DOMAIN e THEN e.tvals ELSE <<>>))
+
 ExtOf(imp) == IF imp.k = "data" THEN ".json" ELSE ".jq"
 KindOf(imp) == IF imp.k = "data" THEN "json" ELSE "jq"
 SearchOf(c, imp, dir) == IF "search" \in DOMAIN imp THEN ResolvePath(c, imp.search, dir) ELSE NoDir
@@ -331,7 +336,7 @@ PImports(c, imps, i, dir, env, tab, base, fuel) ==
      ELSE
      LET next ==
        CASE imp.k = "data" ->
-              LET v == A([x \in 1..Len(ld.e.vals) |-> S(ld.e.vals[x])])
+              LET v == DataValue(ld.e)
               IN POk(env \o << VB("$" \o imp.alias, v), VB("$" \o imp.alias \o "::" \o imp.alias, v) >>, tab)
          [] imp.k = "include" ->
               PFile(c, ld.e.mod, Dir(f.p), ld.i, env, tab, base, fuel - 1)
@@ -523,7 +528,7 @@ StepImport(c, sw, st) ==
      IF ld.k # "ok" THEN Fail(st, ld)
      ELSE IF imp.k = "data"
      THEN \* oppush vals; opstore pushVariable($alias); oppush vals; opstore pushVariable($alias::alias)
-          LET v == A([x \in 1..Len(ld.e.vals) |-> S(ld.e.vals[x])])
+          LET v == DataValue(ld.e)
               p1 == PushVariable(adv, sw, "$" \o imp.alias)
               s1 == [adv EXCEPT !.vars = p1.vars, !.nslots = p1.nslots, !.stores = Append(adv.stores, [slot |-> p1.slot, v |-> v])]
               p2 == PushVariable(s1, sw, "$" \o imp.alias \o "::" \o imp.alias)
